@@ -98,4 +98,6 @@ Spec == Init /\ [][Next]_vars
 
 \* instance generator for the replay into the real code: one line per (sizes, arguments, pre-existing state)
 Emit == (EmitInstances /\ stage = "cuts") => PrintT(<<"I", size, args, pre>>)
+\* ... and one line per tiling: sizes, stream order, cut positions (for the independent writer of C14)
+EmitTilings == (EmitInstances /\ stage = "done") => PrintT(<<"J", size, StreamList, cuts>>)
 =============================================================================
